@@ -480,6 +480,21 @@ def _layer_heads(dec: reader.Decoded):
     return out
 
 
+def _gap_comments(dec: reader.Decoded):
+    """Comments outside every `let … in` head and outside the target set's braces, in document order:
+    header, lambda head, between the layers, between the innermost `in` and the body, after the body."""
+    spans = []
+    for let in dec.shape.layers():
+        inn = None
+        for c in let.children:
+            if c.type == "in":
+                inn = c
+        spans.append((let.start_byte, inn.end_byte))
+    t = dec.shape.target
+    spans.append((t.start_byte, t.end_byte))
+    return [c[0] for c in dec.doc.comments() if not any(lo <= c[1] and c[2] <= hi for lo, hi in spans)]
+
+
 def oracle_c09(steps: list[Step], counters: dict | None = None) -> list[Violation]:
     out: list[Violation] = []
     counters = counters if counters is not None else {}
@@ -564,6 +579,22 @@ def oracle_c09(steps: list[Step], counters: dict | None = None) -> list[Violatio
             if b_toks != a_toks or (canonical and b_head != a_head):
                 out.append(Violation("C09.other_layer_changed", "a let layer that was not addressed changed: %r -> %r" % (b_head[-120:], a_head[-120:]), st.i, f))
                 break
+        else:
+            # the comments between a layer's `in` and what it wraps belong to "the other layers / the body":
+            # whatever layer is created, edited or pruned, they stay, in order
+            # (baseline: what a plain rebuild of the same object printed, so that a round trip that is
+            # not neutral for this document - a C03 matter - is not charged to the edit)
+            base = st.dec_before
+            if st.before_live is not None and st.before_live != st.before:
+                base = reader.decode(st.before_live)
+                if base.error or not base.shape.editable:
+                    bump("skip:gap_baseline_invalid")
+                    continue
+            gb, ga = _gap_comments(base), _gap_comments(st.dec_out)
+            if gb:
+                bump("probe:gap_comments")
+            if gb != ga:
+                out.append(Violation("C09.gap_comment_changed", "comments between the layers changed: %r -> %r" % (gb, ga), st.i, f))
     return out
 
 
